@@ -10,10 +10,15 @@ Model-level equalities between the routes:
 * interpreted vs compiled ghost-cell setter and field method vs `make_operator`: one Lean function
   (`BC.setGhostAll` followed by the `Stencil` kernel) - the content is the correspondence check;
 * the order in which faces are processed is irrelevant (`BC.setGhostAll_perm`, re-exported);
-* the sparse-matrix route equals the stencil route (`Matrix.*_matrix_eq_laplace_with_bc`, re-exported);
+* the sparse-matrix route equals the stencil route for every grid class (`Matrix.*_assembled_eq_laplace`, re-exported:
+  statements about the assembled entries `rowEntry` that the driver evaluates);
 * with or without `out`: the result is a function of the input only;
 * **multi-threaded vs serial**: a kernel whose iterations write pairwise distinct cells and read only
-  the input gives the same array under every permutation and every chunking of the iteration order.
+  the input gives the same array under every permutation and every chunking of the iteration order;
+  `bernstein_schedule_independent` states this for general loop bodies that may read and write the whole store (so the
+  hypotheses "reads no cell another iteration writes" and "distinct written cells" are explicit, with witnesses that each is
+  needed).  The hypotheses are established for the real kernels statically by extractor E2 and dynamically by the traced
+  schedule leg of the harness, which also runs `runWrites (kernelWrites ..)` on the logged writes of the real kernels.
 -/
 namespace PdeVerif.ParLoop
 
@@ -114,6 +119,80 @@ theorem out_route_eq (out out' : I → V) (cells : List I) (f : I → V) (h : ce
 
 example : runWrites (fun _ => (0:Nat)) (kernelWrites [2, 0, 1] (fun c => c * c)) 2 = 4 := by decide
 
+/-! ### general loop bodies: iterations that may read and write the whole store (Bernstein's conditions) -/
+
+theorem runWrites_append (out : I → V) (ws ws' : List (I × V)) :
+    runWrites out (ws ++ ws') = runWrites (runWrites out ws) ws' := by
+  unfold runWrites; rw [List.foldl_append]
+
+/-- cells that are not written keep their value -/
+theorem runWrites_frame (out : I → V) (ws : List (I × V)) (c : I) (h : ∀ w ∈ ws, w.1 ≠ c) :
+    runWrites out ws c = out c := by
+  induction ws generalizing out with
+  | nil => rfl
+  | cons w ws ih =>
+    rw [runWrites_cons, ih _ (fun w' hw' => h w' (List.mem_cons_of_mem _ hw'))]
+    have : c ≠ w.1 := fun e => h w List.mem_cons_self e.symm
+    simp [upd, this]
+
+/-- iterations that read only cells outside `P` and write only cells inside `P` behave like a fixed write list -/
+theorem runBodies_eq_runWrites (P : I → Prop) (s0 s : I → V) (bs : List (Body I V))
+    (hread : ∀ b ∈ bs, ∀ s s' : I → V, (∀ c, ¬ P c → s c = s' c) → b s = b s')
+    (hwrite : ∀ b ∈ bs, ∀ s : I → V, ∀ w ∈ b s, P w.1)
+    (hs : ∀ c, ¬ P c → s c = s0 c) :
+    runBodies s bs = runWrites s (bs.flatMap (fun b => b s0)) := by
+  induction bs generalizing s with
+  | nil => rfl
+  | cons b bs ih =>
+    have hb : b s = b s0 := hread b List.mem_cons_self s s0 hs
+    unfold runBodies
+    rw [List.foldl_cons, List.flatMap_cons, runWrites_append, hb]
+    have := ih (runWrites s (b s0)) (fun b' hb' => hread b' (List.mem_cons_of_mem _ hb'))
+      (fun b' hb' => hwrite b' (List.mem_cons_of_mem _ hb'))
+      (fun c hc => by
+        rw [runWrites_frame s (b s0) c (fun w hw e => hc (e ▸ hwrite b List.mem_cons_self s0 w hw))]
+        exact hs c hc)
+    unfold runBodies at this
+    exact this
+
+/-- **schedule independence under Bernstein's conditions**: if every iteration reads only cells that no iteration
+writes (`hread`: its writes do not depend on the cells in `P`; `hwrite`: all writes land in `P`) and the iterations write
+pairwise distinct cells, every order of the iterations gives the same store.  A kernel that reads `out`, or writes an
+input cell another iteration reads, violates `hread` and is not covered (see the witness below). -/
+theorem bernstein_schedule_independent (P : I → Prop) (s0 : I → V) (bs bs' : List (Body I V)) (hp : bs.Perm bs')
+    (hread : ∀ b ∈ bs, ∀ s s' : I → V, (∀ c, ¬ P c → s c = s' c) → b s = b s')
+    (hwrite : ∀ b ∈ bs, ∀ s : I → V, ∀ w ∈ b s, P w.1)
+    (hdisj : ((bs.flatMap (fun b => b s0)).map Prod.fst).Nodup) :
+    runBodies s0 bs = runBodies s0 bs' := by
+  rw [runBodies_eq_runWrites P s0 s0 bs hread hwrite (fun _ _ => rfl),
+    runBodies_eq_runWrites P s0 s0 bs' (fun b hb => hread b (hp.mem_iff.mpr hb))
+      (fun b hb => hwrite b (hp.mem_iff.mpr hb)) (fun _ _ => rfl)]
+  exact parallel_schedule_independent s0 _ _ (hp.flatMap_right _) hdisj
+
+/-- the kernels of `kernelWrites` are the special case: one iteration per cell, value from the input only -/
+theorem runBodies_kernel (out : I → V) (cells : List I) (f : I → V) :
+    runBodies out (cells.map fun c => (fun _ => [(c, f c)] : Body I V)) = runWrites out (kernelWrites cells f) := by
+  induction cells generalizing out with
+  | nil => rfl
+  | cons c cs ih =>
+    unfold runBodies kernelWrites at ih ⊢
+    simp only [List.map_cons, List.foldl_cons]
+    rw [ih]
+    rfl
+
+/-- witness that the read hypothesis is needed: an iteration that reads the output cell of another iteration makes the
+result depend on the order (what extractor E2 and the traced schedule leg exclude for the real kernels) -/
+theorem schedule_dependent_if_out_is_read :
+    runBodies (fun _ => (0:Nat)) [(fun _ => [(0, 1)] : Body Nat Nat), (fun s => [(1, s 0)])] 1
+      ≠ runBodies (fun _ => (0:Nat)) [(fun s => [(1, s 0)] : Body Nat Nat), (fun _ => [(0, 1)])] 1 := by
+  decide
+
+/-- witness that distinct written cells are needed -/
+theorem schedule_dependent_if_cells_shared :
+    runWrites (fun _ => (0:Nat)) [(0, 1), (0, 2)] 0 ≠ runWrites (fun _ => (0:Nat)) [(0, 2), (0, 1)] 0 := by
+  decide
+
+
 end PdeVerif.ParLoop
 
 namespace PdeVerif.Routes
@@ -127,11 +206,94 @@ theorem ghost_route_order_irrelevant (faces faces' : List (Face × K × Cond K))
     (hc : Compatible faces) (hc' : Compatible faces') (a : List Int → K) :
     setGhostAll faces a = setGhostAll faces' a := setGhostAll_perm faces faces' hp hc hc' a
 
-/-- sparse-matrix route = stencil route (1-d Cartesian; polar, spherical, 2-d, cylindrical: see C18) -/
-theorem matrix_route_eq_stencil_route (N : Nat) (dx : K) (lo hi : BCData K) (i : Nat) (hi' : i < N)
+/-! sparse-matrix route = stencil route, for every grid class.  The statements are about `matvec`, the row-vector
+product of the assembled entries `rowEntry` (what `Drv/C18.lean` evaluates and the harness compares with the real dense
+matrix), with the boundary data `bcData` of `get_sparse_matrix_data`; proofs in `Props/C18.lean`. -/
+
+theorem matrix_route_eq_stencil_route (N : Nat) (hN : 2 ≤ N) (dx : K) (cl ch : PCond K) (i : Nat) (hi' : i < N)
     (x : Nat → K) (a : Arr K) (hval : ∀ k : Nat, k < N → a [(k:Int) + 1] = x k)
-    (hlo : a [0] = lo.eval x) (hhi : a [(N:Int) + 1] = hi.eval x) :
-    progSum (cart1Row N dx lo hi i).2 x + (cart1Row N dx lo hi i).1 = cartLaplace [dx] a [] [(i:Int) + 1] :=
-  cart1_matrix_eq_laplace_with_bc N dx lo hi i hi' x a hval hlo hhi
+    (hlo : a [0] = (bcData N .lower dx cl).eval x) (hhi : a [(N:Int) + 1] = (bcData N .upper dx ch).eval x) :
+    matvec N (cart1Row N dx (bcData N .lower dx cl) (bcData N .upper dx ch) i).2 x
+        + (cart1Row N dx (bcData N .lower dx cl) (bcData N .upper dx ch) i).1 = cartLaplace [dx] a [] [(i:Int) + 1] :=
+  cart1_assembled_eq_laplace N hN dx cl ch i hi' x a hval hlo hhi
+
+theorem matrix_route_eq_stencil_route_cart2 (nx ny : Nat) (hnx : 2 ≤ nx) (hny : 2 ≤ ny) (dx dy : K)
+    (cxl cxh cyl cyh : Nat → PCond K) (cx cy : Nat) (hx : cx < nx) (hy : cy < ny) (u : Nat → K) (a : Arr K)
+    (hval : ∀ p q : Nat, p < nx → q < ny → a [(p:Int) + 1, (q:Int) + 1] = u (p * ny + q))
+    (hxlo : a [0, (cy:Int) + 1] = (bcData nx .lower dx (cxl cy)).eval (fun k => u (k * ny + cy)))
+    (hxhi : a [(nx:Int) + 1, (cy:Int) + 1] = (bcData nx .upper dx (cxh cy)).eval (fun k => u (k * ny + cy)))
+    (hylo : a [(cx:Int) + 1, 0] = (bcData ny .lower dy (cyl cx)).eval (fun k => u (cx * ny + k)))
+    (hyhi : a [(cx:Int) + 1, (ny:Int) + 1] = (bcData ny .upper dy (cyh cx)).eval (fun k => u (cx * ny + k))) :
+    matvec (nx * ny) (cart2Row nx ny dx dy (fun y => bcData nx .lower dx (cxl y)) (fun y => bcData nx .upper dx (cxh y))
+        (fun x => bcData ny .lower dy (cyl x)) (fun x => bcData ny .upper dy (cyh x)) cx cy).2 u
+      + (cart2Row nx ny dx dy (fun y => bcData nx .lower dx (cxl y)) (fun y => bcData nx .upper dx (cxh y))
+        (fun x => bcData ny .lower dy (cyl x)) (fun x => bcData ny .upper dy (cyh x)) cx cy).1
+      = cartLaplace [dx, dy] a [] [(cx:Int) + 1, (cy:Int) + 1] :=
+  cart2_assembled_eq_laplace nx ny hnx hny dx dy cxl cxh cyl cyh cx cy hx hy u a hval hxlo hxhi hylo hyhi
+
+theorem matrix_route_eq_stencil_route_polar (N : Nat) (hN : 2 ≤ N) (r : Int → K) (dr : K) (cl ch : PCond K) (i : Nat)
+    (hi' : i < N) (x : Nat → K) (a : Arr K) (hval : ∀ k : Nat, k < N → a [(k:Int) + 1] = x k)
+    (hlo : a [0] = (bcData N .lower dr cl).eval x) (hhi : a [(N:Int) + 1] = (bcData N .upper dr ch).eval x) :
+    matvec N (polarRow N r dr false (bcData N .lower dr cl) (bcData N .upper dr ch) i).2 x
+        + (polarRow N r dr false (bcData N .lower dr cl) (bcData N .upper dr ch) i).1 = polarLaplace r dr a ((i:Int) + 1) :=
+  polar_assembled_eq_laplace N hN r dr cl ch i hi' x a hval hlo hhi
+
+theorem matrix_route_eq_stencil_route_polar_disk (N : Nat) (hN : 2 ≤ N) (r : Int → K) (dr : K) (hdr : dr ≠ 0)
+    (hr : r 1 = dr / 2) (cl ch : PCond K) (i : Nat) (hi' : i < N)
+    (x : Nat → K) (a : Arr K) (hval : ∀ k : Nat, k < N → a [(k:Int) + 1] = x k)
+    (hhi : a [(N:Int) + 1] = (bcData N .upper dr ch).eval x) :
+    matvec N (polarRow N r dr true (bcData N .lower dr cl) (bcData N .upper dr ch) i).2 x
+        + (polarRow N r dr true (bcData N .lower dr cl) (bcData N .upper dr ch) i).1 = polarLaplace r dr a ((i:Int) + 1) :=
+  polar_disk_assembled_eq_laplace N hN r dr hdr hr cl ch i hi' x a hval hhi
+
+theorem matrix_route_eq_stencil_route_sph (N : Nat) (hN : 2 ≤ N) (r : Int → K) (dr : K) (cl ch : PCond K) (i : Nat)
+    (hi' : i < N) (x : Nat → K) (a : Arr K) (hval : ∀ k : Nat, k < N → a [(k:Int) + 1] = x k)
+    (hlo : a [0] = (bcData N .lower dr cl).eval x) (hhi : a [(N:Int) + 1] = (bcData N .upper dr ch).eval x) :
+    matvec N (sphRow N r dr false (bcData N .lower dr cl) (bcData N .upper dr ch) i).2 x
+        + (sphRow N r dr false (bcData N .lower dr cl) (bcData N .upper dr ch) i).1 = sphLaplace true r dr a ((i:Int) + 1) :=
+  sph_assembled_eq_laplace N hN r dr cl ch i hi' x a hval hlo hhi
+
+theorem matrix_route_eq_stencil_route_sph_ball (N : Nat) (hN : 2 ≤ N) (r : Int → K) (dr : K) (hr : r 1 = dr / 2)
+    (cl ch : PCond K) (i : Nat) (hi' : i < N)
+    (x : Nat → K) (a : Arr K) (hval : ∀ k : Nat, k < N → a [(k:Int) + 1] = x k)
+    (hhi : a [(N:Int) + 1] = (bcData N .upper dr ch).eval x) :
+    matvec N (sphRow N r dr true (bcData N .lower dr cl) (bcData N .upper dr ch) i).2 x
+        + (sphRow N r dr true (bcData N .lower dr cl) (bcData N .upper dr ch) i).1 = sphLaplace true r dr a ((i:Int) + 1) :=
+  sph_ball_assembled_eq_laplace N hN r dr hr cl ch i hi' x a hval hhi
+
+theorem matrix_route_eq_stencil_route_cyl (nr nz : Nat) (hnr : 2 ≤ nr) (hnz : 2 ≤ nz) (r : Int → K) (dr dz : K)
+    (crl crh czl czh : Nat → PCond K) (cx cz : Nat) (hx : cx < nr) (hz : cz < nz) (u : Nat → K) (a : Arr K)
+    (hval : ∀ p q : Nat, p < nr → q < nz → a [(p:Int) + 1, (q:Int) + 1] = u (p * nz + q))
+    (hrlo : a [0, (cz:Int) + 1] = (bcData nr .lower dr (crl cz)).eval (fun k => u (k * nz + cz)))
+    (hrhi : a [(nr:Int) + 1, (cz:Int) + 1] = (bcData nr .upper dr (crh cz)).eval (fun k => u (k * nz + cz)))
+    (hzlo : a [(cx:Int) + 1, 0] = (bcData nz .lower dz (czl cx)).eval (fun k => u (cx * nz + k)))
+    (hzhi : a [(cx:Int) + 1, (nz:Int) + 1] = (bcData nz .upper dz (czh cx)).eval (fun k => u (cx * nz + k))) :
+    matvec (nr * nz) (cylRow nr nz r dr dz (fun z => bcData nr .lower dr (crl z)) (fun z => bcData nr .upper dr (crh z))
+        (fun x => bcData nz .lower dz (czl x)) (fun x => bcData nz .upper dz (czh x)) cx cz).2 u
+      + (cylRow nr nz r dr dz (fun z => bcData nr .lower dr (crl z)) (fun z => bcData nr .upper dr (crh z))
+        (fun x => bcData nz .lower dz (czl x)) (fun x => bcData nz .upper dz (czh x)) cx cz).1
+      = cylLaplace r dr dz a ((cx:Int) + 1) ((cz:Int) + 1) :=
+  cyl_assembled_eq_laplace nr nz hnr hnz r dr dz crl crh czl czh cx cz hx hz u a hval hrlo hrhi hzlo hzhi
+
+/-- 3-d Cartesian: see `Matrix.cart3_assembled_eq_laplace` (same statement with six faces) -/
+theorem matrix_route_eq_stencil_route_cart3 (nx ny nz : Nat) (hnx : 2 ≤ nx) (hny : 2 ≤ ny) (hnz : 2 ≤ nz) (dx dy dz : K)
+    (cxl cxh cyl cyh czl czh : Nat → Nat → PCond K) (cx cy cz : Nat) (hx : cx < nx) (hy : cy < ny) (hz : cz < nz)
+    (u : Nat → K) (a : Arr K)
+    (hval : ∀ p q s : Nat, p < nx → q < ny → s < nz → a [(p:Int) + 1, (q:Int) + 1, (s:Int) + 1] = u ((p * ny + q) * nz + s))
+    (hxlo : a [0, (cy:Int) + 1, (cz:Int) + 1] = (bcData nx .lower dx (cxl cy cz)).eval (fun k => u ((k * ny + cy) * nz + cz)))
+    (hxhi : a [(nx:Int) + 1, (cy:Int) + 1, (cz:Int) + 1] = (bcData nx .upper dx (cxh cy cz)).eval (fun k => u ((k * ny + cy) * nz + cz)))
+    (hylo : a [(cx:Int) + 1, 0, (cz:Int) + 1] = (bcData ny .lower dy (cyl cx cz)).eval (fun k => u ((cx * ny + k) * nz + cz)))
+    (hyhi : a [(cx:Int) + 1, (ny:Int) + 1, (cz:Int) + 1] = (bcData ny .upper dy (cyh cx cz)).eval (fun k => u ((cx * ny + k) * nz + cz)))
+    (hzlo : a [(cx:Int) + 1, (cy:Int) + 1, 0] = (bcData nz .lower dz (czl cx cy)).eval (fun k => u ((cx * ny + cy) * nz + k)))
+    (hzhi : a [(cx:Int) + 1, (cy:Int) + 1, (nz:Int) + 1] = (bcData nz .upper dz (czh cx cy)).eval (fun k => u ((cx * ny + cy) * nz + k))) :
+    matvec (nx * ny * nz) (cart3Row nx ny nz dx dy dz (fun y z => bcData nx .lower dx (cxl y z)) (fun y z => bcData nx .upper dx (cxh y z))
+        (fun x z => bcData ny .lower dy (cyl x z)) (fun x z => bcData ny .upper dy (cyh x z))
+        (fun x y => bcData nz .lower dz (czl x y)) (fun x y => bcData nz .upper dz (czh x y)) cx cy cz).2 u
+      + (cart3Row nx ny nz dx dy dz (fun y z => bcData nx .lower dx (cxl y z)) (fun y z => bcData nx .upper dx (cxh y z))
+        (fun x z => bcData ny .lower dy (cyl x z)) (fun x z => bcData ny .upper dy (cyh x z))
+        (fun x y => bcData nz .lower dz (czl x y)) (fun x y => bcData nz .upper dz (czh x y)) cx cy cz).1
+      = cartLaplace [dx, dy, dz] a [] [(cx:Int) + 1, (cy:Int) + 1, (cz:Int) + 1] :=
+  cart3_assembled_eq_laplace nx ny nz hnx hny hnz dx dy dz cxl cxh cyl cyh czl czh cx cy cz hx hy hz u a hval
+    hxlo hxhi hylo hyhi hzlo hzhi
 
 end PdeVerif.Routes
